@@ -578,7 +578,8 @@ _jpeg_skip_scanlines(j_decompress_ptr cinfo, JDIMENSION num_lines)
      * case, we will read the next iMCU row if we cannot skip past it as well.
      */
     if ((num_lines < lines_left_in_iMCU_row + 1) ||
-        (lines_left_in_iMCU_row <= 1 && main_ptr->buffer_full &&
+        (lines_left_in_iMCU_row < (JDIMENSION)cinfo->max_v_samp_factor &&
+         main_ptr->buffer_full &&
          lines_after_iMCU_row < lines_per_iMCU_row + 1)) {
       read_and_discard_scanlines(cinfo, num_lines);
       return num_lines;
@@ -587,7 +588,8 @@ _jpeg_skip_scanlines(j_decompress_ptr cinfo, JDIMENSION num_lines)
     /* If the next iMCU row has already been entropy-decoded, make sure that
      * we do not skip too far.
      */
-    if (lines_left_in_iMCU_row <= 1 && main_ptr->buffer_full) {
+    if (lines_left_in_iMCU_row < (JDIMENSION)cinfo->max_v_samp_factor &&
+        main_ptr->buffer_full) {
       cinfo->output_scanline += lines_left_in_iMCU_row + lines_per_iMCU_row;
       lines_after_iMCU_row -= lines_per_iMCU_row;
     } else {
